@@ -193,6 +193,49 @@ fn random_all_nodes(src: &mut Src, obs: &mut Obs) -> Res {
     all_nodes(&doc, obs)
 }
 
+/// paths of wide arrays whose indices are touched for the first time by 16 threads at once
+fn parallel_first_touch(obs: &mut Obs, thorough: bool) -> Res {
+    use jsonpath_rust::JsonPath;
+    let rounds = if thorough { 200 } else { 60 };
+    let mut width = 33usize;
+    for round in 0..rounds {
+        width += 17 + (round % 5) * 8;
+        let wide = Value::Array((0..width).map(|i| json!(i)).collect());
+        let expected: Vec<String> = (0..width).map(|i| format!("$[{}]", i)).collect();
+        let q = ["$[*]", "$[::1]", "$[?@ >= 0]", "$..[*]"][round % 4];
+        let barrier = std::sync::Barrier::new(16);
+        let bad: std::sync::Mutex<Option<Value>> = std::sync::Mutex::new(None);
+        std::thread::scope(|sc| {
+            for _ in 0..16 {
+                let (wide, expected, barrier, bad) = (&wide, &expected, &barrier, &bad);
+                sc.spawn(move || {
+                    barrier.wait();
+                    let r = guarded(|| wide.query_only_path(q));
+                    let ok = matches!(&r, Ok(Ok(p)) if p == expected);
+                    if !ok {
+                        let mut b = bad.lock().unwrap();
+                        if b.is_none() {
+                            let diff = match r {
+                                Ok(Ok(p)) => json!(p.iter().zip(expected.iter()).enumerate().find(|(_, (a, b))| a != b).map(|(i, (a, b))| json!({"position": i, "reported": a, "expected": b}))),
+                                Ok(Err(e)) => json!(e.to_string()),
+                                Err(p) => json!(p),
+                            };
+                            *b = Some(json!({"query": q, "doc": format!("[0, 1, ... {}]", expected.len() - 1), "first_difference": diff}));
+                        }
+                    }
+                });
+            }
+        });
+        obs.eval(16);
+        obs.nontrivial(&(q, width), || json!({"query": q, "array_width": width, "threads": 16}));
+        if let Some(b) = bad.into_inner().unwrap() {
+            return Err(Failure::new("a reported path is not the location of its node when several threads evaluate queries over wide arrays at the same time", b));
+        }
+    }
+    obs.boxes.push(json!({"box": "wide arrays (widths growing from 50) queried by 16 threads at once, each width touched for the first time in the process", "rounds": rounds, "exhaustive": false}));
+    Ok(())
+}
+
 fn direct(case: &Value, obs: &mut Obs) -> Res {
     let (q, text, doc) = parse_direct(case)?;
     check(&q, &text, &doc, obs)
@@ -211,6 +254,7 @@ pub fn prop() -> Prop {
         ],
         subs: vec![
             Sub { name: "random-routes", kind: Kind::Random { f: random_routes, quick: 200_000, thorough: 4_000_000, len: 400 } },
+            Sub { name: "parallel-first-touch", kind: Kind::Exhaustive(parallel_first_touch) },
             Sub { name: "random-all-nodes", kind: Kind::Random { f: random_all_nodes, quick: 50_000, thorough: 1_000_000, len: 300 } },
         ],
         direct: Some(direct),
